@@ -496,6 +496,17 @@ func (x *Exec) opCloseServer(st *Step) {
 			x.St.inc("teardown:server-close-with-traffic-in-flight")
 		}
 	}
+	if st != nil && st.Opt == "relay-close-error" {
+		// the close of one allocation's relay socket reports an error: the others must be closed all the same
+		for ci := range x.w.clients { // (in client order: never in map order)
+			if a := x.m.Allocs[ci]; a != nil && a.RelaySock != nil {
+				a.RelaySock.FailClose = true
+				x.St.inc("teardown:server-close-with-failing-relay-close")
+
+				break
+			}
+		}
+	}
 	x.w.closed = true
 	_ = x.w.srv.Close() // an error (e.g. a listener socket the application closed itself) is not judged
 	x.settle()
